@@ -100,6 +100,21 @@ func monC02(c *ctx, w *hWorld, pre *worldSnap, sr *stepResult, hist []string) {
 			counter = tkU64(acc.storage[string(noncePrefix)+string(a[0])])
 		}
 		k := tkKey(a[0], counter+1)
+		// "a fresh nonce": the creator's counter advances by exactly one, the returned nonce is that value, so the next create cannot
+		// land on a nonce this creator has already issued
+		if acc, ok := w.shards[cs.Shard].accounts[string(cs.Caller)]; ok {
+			post := tkU64(acc.storage[string(noncePrefix)+string(a[0])])
+			ret := uint64(0)
+			if sr.Res.Out != nil && len(sr.Res.Out.ReturnData) > 0 {
+				ret = tkU64(sr.Res.Out.ReturnData[0])
+			}
+			if post != counter+1 || ret != counter+1 {
+				c.fail("monitor", "supply/ESDTNFTCreate/nonce-not-fresh",
+					fmt.Sprintf("ESDTNFTCreate(%q) by %x with counter %d: returned nonce %d, stored counter afterwards %d (both must be %d): a later create re-issues an existing nonce", a[0], cs.Caller, counter, ret, post, counter+1),
+					tkReplay(sr, hist))
+				return
+			}
+		}
 		had := c02PreBal(sr.Res.Pre, cs.Caller, k)
 		if raw := tkRaw(sr.Res.Pre, cs.Caller, k); len(raw) > 0 {
 			old := tkEntry(sr.Res.Pre, cs.Caller, k)
